@@ -156,6 +156,11 @@ func isCmd(ty int) bool { b := ty & 0x3F; return b == 0x10 || b == 0x11 }
 
 // runRT executes one round-trip case: real writer -> chunked transport -> real reader.
 func runRT(pk []pkt, sizes []int, tailErr bool) (caseStr, obs string) {
+	return runRTRate(pk, sizes, tailErr, 0)
+}
+
+// runRTRate: as runRT, with WritePacket's rateLimitBytesPerSecond = rate (case `rtl <rate> …`).
+func runRTRate(pk []pkt, sizes []int, tailErr bool, rate int64) (caseStr, obs string) {
 	var buf recWriter
 	w := stream.NewStreamProcessor(nil, &buf, context.Background())
 	var tbl []string
@@ -178,7 +183,7 @@ func runRT(pk []pkt, sizes []int, tailErr bool) (caseStr, obs string) {
 				tbl = append(tbl, vc.Hex(p.body), vc.Hex(gz))
 			}
 		}
-		if _, err := w.WritePacket(tp, p.comp, 0); err != nil {
+		if _, err := w.WritePacket(tp, p.comp, rate); err != nil {
 			werr = "writeerr " + strings.ReplaceAll(err.Error(), " ", "_")
 			break
 		}
@@ -206,6 +211,9 @@ func runRT(pk []pkt, sizes []int, tailErr bool) (caseStr, obs string) {
 		fmt.Fprintf(&sb, " %d", s)
 	}
 	caseStr = sb.String()
+	if rate > 0 {
+		caseStr = fmt.Sprintf("rtl %d %s", rate, strings.TrimPrefix(caseStr, "rt "))
+	}
 	if werr != "" {
 		return caseStr, werr
 	}
@@ -290,6 +298,13 @@ func runCap(ty int, comp bool, size int) (caseStr, obs string) {
 		timeouts++
 		return caseStr, "timeout"
 	}
+}
+
+func emitRTL(out *vc.Out, pk []pkt, sizes []int, tailErr bool, rate int64) {
+	c, o := runRTRate(pk, sizes, tailErr, rate)
+	out.Case(c, o, keyOf(pk, sizes)+fmt.Sprint("|rate", rate))
+	abortIfStuck(out)
+	out.Count("rate-limited-writer")
 }
 
 func emitCap(out *vc.Out, ty int, comp bool, size int) {
@@ -499,6 +514,20 @@ func genRT(out *vc.Out, r *vc.Rand, thorough bool) {
 			emitRT(out, pk, randSizes(r, n), r.Intn(4) == 0, "random")
 		}
 	}
+	// (3b) the same writer with a rate limit: the body goes through writeRateLimitedData in pieces
+	nl := 60
+	if thorough {
+		nl = 600
+	}
+	for i := 0; i < nl; i++ {
+		var pk []pkt
+		for j, np := 0, 1+r.Intn(3); j < np; j++ {
+			ty := vc.Pick(r, definedTypes)
+			pk = append(pk, pkt{ty, r.Intn(3) == 0, genBody(r, ty, []int{0, 1, 1023, 1024, 1025, 2048, 3000, 5000})})
+		}
+		rate := vc.Pick(r, []int64{1 << 30, 1 << 30, 10_000_000, 400_000})
+		emitRTL(out, pk, randSizes(r, wireLen(pk)), r.Intn(4) == 0, rate)
+	}
 	// (4) boundary: bodies of exactly the cap and one below it, plain and compressed (the inflated
 	// size is then the cap)
 	capSz := 16 * 1024 * 1024
@@ -575,6 +604,14 @@ func replayFile(out *vc.Out, path string) {
 			emitRT(out, pk, sizes, tailErr, "corpus")
 		case "raw":
 			replayRaw(out, toks)
+		case "rtl":
+			rate, _ := strconv.ParseInt(toks[1], 10, 64)
+			pk, sizes, tailErr, err := parseCaseRT(append([]string{"rt"}, toks[2:]...))
+			if err != nil {
+				fmt.Fprintln(os.Stderr, "bad corpus line:", err)
+				os.Exit(3)
+			}
+			emitRTL(out, pk, sizes, tailErr, rate)
 		case "rtcap":
 			ty, _ := strconv.Atoi(toks[1])
 			sz, _ := strconv.Atoi(toks[3])
